@@ -16,7 +16,7 @@ func init() {
 // areas are the exact ones (48, 2).
 func vfhC14CentroidWeights() {
 	t := vfPt("t")
-	vfAssume(vfAnd(vfAnd(t.X >= 1, t.X <= 5), vfAnd(t.Y >= 1, t.Y <= 4)))
+	vfAssume(vfAnd(vfAnd(t.X >= 1, t.X <= 5), vfAnd(t.Y >= 1, t.Y <= 2)))
 	var shell, hole LineString
 	if vfBool("shell-cw") {
 		shell = NewLineStringXY(0, 0, 0, 6, 8, 6, 8, 0, 0, 0)
@@ -29,6 +29,24 @@ func vfhC14CentroidWeights() {
 	} else {
 		hole = vfLineXY(a, b, c, d, a)
 	}
+	// a second, fixed hole above the first one (1.5 x 1 at (5,4)): three rings in all
+	hole2 := NewLineStringXY(5, 4, 6.5, 4, 6.5, 5, 5, 5, 5, 4)
+	rings := []LineString{shell, hole, hole2}
+	if vfBool("hole2-first") {
+		rings = []LineString{shell, hole2, hole}
+	}
+	two := NewPolygon(rings)
+	vfAssert(two.Area() == 44.5, "area = shell - both holes")
+	got2, ok2 := two.Centroid().XY()
+	ah1 := (b.X-a.X)*(d.Y-a.Y) - (d.X-a.X)*(b.Y-a.Y)
+	tot2 := 48 - ah1 - 1.5
+	var want2 XY
+	if rings[1].Coordinates().GetXY(0) == hole2.Coordinates().GetXY(0) {
+		want2 = weightedCentroid(shell, 48, tot2).Add(weightedCentroid(hole2, -1.5, tot2)).Add(weightedCentroid(hole, -ah1, tot2))
+	} else {
+		want2 = weightedCentroid(shell, 48, tot2).Add(weightedCentroid(hole, -ah1, tot2)).Add(weightedCentroid(hole2, -1.5, tot2))
+	}
+	vfAssert(ok2 && vfAnd(got2.X == want2.X, got2.Y == want2.Y), "with two holes every ring contributes its weighted centroid")
 	poly := NewPolygon([]LineString{shell, hole})
 	vfAssert(poly.Area() == 46, "area = shell - hole")
 	got, ok := poly.Centroid().XY()
